@@ -10,7 +10,9 @@ LIMITS = {'byte': 256, 'char': CHAR_MAX, 'short': SHORT_MAX, 'three': THREE_MAX,
 SIZES = {'byte': 1, 'char': 1, 'short': 2, 'three': 3, 'int': 4}
 
 EDGE_CPS = [0x00, 0x20, 0x21, 0x22, 0x41, 0x4F, 0x50, 0x79, 0x7D, 0x7E, 0x7F, 0x80, 0x81, 0x8D, 0x9F, 0xA0, 0xFE, 0xFF, 0x100, 0x152,
-            0x178, 0x20AC, 0x2122, 0x263A, 0xFFFD, 0xD800, 0x10FFFF]
+            0x178, 0x20AC, 0x2122, 0x263A, 0xFFFD, 0xD800, 0x10FFFF, 0x301, 0x308, 0x212A, 0x212B]
+# canonically decomposed sequences whose composition is a windows-1252 character (the codec works per code point: no normalisation)
+DECOMPOSED = [[0x79, 0x308], [0x65, 0x301], [0x41, 0x30A], [0x59, 0x308], [0x6E, 0x303]]
 EDGE_BYTES = [0x00, 0x01, 0x02, 0x21, 0x22, 0x7E, 0x7F, 0x80, 0x81, 0xFD, 0xFE, 0xFF]
 
 
@@ -144,18 +146,26 @@ def run_writer(wmod, ops):
     """-> list of (('ok',None)|('err',E), bytes after, mode after) ; one entry per op"""
     w = wmod.EoWriter()
     obs = []
+    kept = []            # outputs handed out earlier, held the way a reader holds them (memoryview): later writes must not touch them
     for op in ops:
         try:
             r = apply_wop(w, op)
             res = ('ok', None) if r is None else ('err', 'EUnexpected')
         except Exception as e:
-            res = ('err', exc_class(e))
-        obs.append((res, list(w.to_bytearray()), bool(w.string_sanitization_mode), len(w)))
+            res = ('err', 'EAliased' if isinstance(e, BufferError) else exc_class(e))
+        out = w.to_bytearray()
+        if len(kept) < 4:
+            kept.append((memoryview(out), list(out)))
+        obs.append((res, list(out), bool(w.string_sanitization_mode), len(w)))
+    if obs and any(list(mv) != snap for mv, snap in kept) and obs[-1][0][0] == 'ok':
+        obs[-1] = (('err', 'EAliased'),) + obs[-1][1:]
+    for mv, _ in kept:
+        mv.release()
     return obs
 
 
 def cwobs(o):
-    r = "(Ok tt)" if o[0][0] == 'ok' else f"(Err {o[0][1]})"
+    r = "(Ok tt)" if o[0][0] == 'ok' else f"(Err {'EUnexpected' if o[0][1] == 'EAliased' else o[0][1]})"
     return f"({r}, {clist(o[1])}, {cbool(o[2])})"
 
 
@@ -199,6 +209,8 @@ def writer_oracle(ops, obs):
             else:
                 size = len(s)
         if res[0] == 'err':
+            if res[1] == 'EAliased':
+                return f"{where}: an output handed out earlier by to_bytearray() shares the writer's buffer (it was changed by, or it blocked, a later write)"
             if res[1] != 'EValue':
                 return f"{where}: raised {res[1]}, only ValueError is allowed"
             if data != prev:
@@ -246,7 +258,11 @@ def py_encode_string(bs):
 
 def gen_string(rng, maxlen=12):
     n = rng.choice([0, 1, 2, 3, rng.randrange(0, maxlen + 1)])
-    return [rng.choice(EDGE_CPS) if rng.random() < 0.45 else rng.randrange(0x20, 0x17F) for _ in range(n)]
+    s = [rng.choice(EDGE_CPS) if rng.random() < 0.45 else rng.randrange(0x20, 0x17F) for _ in range(n)]
+    if n >= 2 and rng.random() < 0.15:
+        k = rng.randrange(0, n - 1)
+        s[k:k + 2] = rng.choice(DECOMPOSED)
+    return s
 
 
 def gen_int(rng, kind):
